@@ -38,7 +38,7 @@ PRIOS = [-3, -1, 0, 0, 1, 1, 2, 3]
 
 def gen_one(rng, tier, scale=False):
     big = tier == 'thorough' and rng.random() < 0.5
-    ncls = rng.randint(3, 6) if not scale else 40
+    ncls = rng.randint(3, 6) if not scale else 50
     classes = []
     for i in range(ncls):
         base = rng.randrange(i) if i and rng.random() < 0.5 else None
@@ -60,7 +60,7 @@ def gen_one(rng, tier, scale=False):
                 act = rng.choice([['rm_self'], ['rm', rng.randrange(ncls)],
                                   ['add', rng.randrange(ncls)]])
             ops.append(['addp', rng.randrange(ncls), prio, reuse, act])
-        elif k < 0.6:
+        elif k < (0.6 if not scale else 0.5):
             ops.append(['rmp', rng.randrange(ncls)])
         elif k < 0.9:
             ops.append(['process'])
@@ -77,7 +77,7 @@ def gen_cases(tier, seed):
     for i in range(2 if tier == 'quick' else 32):
         yield gen_one(random.Random(f'C07/scale/{seed}/{tier}/{i}'), tier,
                       scale=True)
-    n = 2400 if tier == 'quick' else 16 * 10000
+    n = 6000 if tier == 'quick' else 16 * 10000
     for i in range(n):
         yield gen_one(random.Random(f'C07/{seed}/{tier}/{i}'), tier)
 
